@@ -100,12 +100,13 @@ fn battery(tag: &str, d: &mut Ddnnf, lists: &[Vec<i32>], s: &mut String) {
             Err(_) => false,
         };
         // A model whose root is a true node makes `enumerate` divide by zero while it holds the
-        // process-global cursor lock (rt = 0 because preprocess_config_creation hides true nodes);
-        // the poisoned lock would make every later enumeration of this process panic, so such a
-        // model (only the hand-written zero-feature case) is not asked for enumerations.
+        // cursor lock (rt = 0 because preprocess_config_creation hides true nodes); the poisoned
+        // lock makes every later enumeration on that model panic (before the repair F21: of the
+        // whole process), so such a model (only the hand-written zero-feature case, outside the
+        // input space) is not asked for enumerations.
         let true_root = matches!(d.nodes.last().map(|x| &x.ntype), Some(ddnnife::NodeType::True));
         if small && k % 2 == 0 && !true_root {
-            // the whole model set under `a` in one page (the process-global cursor is back at 0
+            // the whole model set under `a` in one page (the cursor of this model is back at 0
             // afterwards because stop = rt)
             let mut aa = a.clone();
             match guarded(|| d.enumerate(&mut aa, 1000)) {
